@@ -39,7 +39,7 @@ def two_group_check(spec, tier, tol=Fraction(1, 10 ** 9), after_oracle=None):
         coq_make([d])
     groups = [('exact', None, [i for i in range(len(cases))
                                if spec.compare_case(cases[i], results[i]) and results[i].get('exact')]),
-              ('tolerance 1e-9', tol, [i for i in range(len(cases))
+              ('tolerance %.0e' % float(tol), tol, [i for i in range(len(cases))
                                        if spec.compare_case(cases[i], results[i]) and not results[i].get('exact')])]
     all_bad = []
     for gname, gtol, idx in groups:
